@@ -147,18 +147,6 @@ def main():
             write_evidence(a, prop, tier, seed, t0, obs, fns, facts, controls, [], [], notes, None, engine_error=True)
             return 2
 
-    mutants = None
-    if tier == "thorough" and not a.no_mutants:
-        import mutants as mu
-        mutants = mu.run(prop, a.repo)
-        # the other half: behaviour-preserving refactors must not alarm
-        import benign as be
-        b = be.run([prop])
-        mutants["benign"] = {"clean": len(b["clean"]), "skipped": b["skipped"], "false_alarms": b["false_alarms"]}
-        for fa_ in b["false_alarms"]:
-            mutants["regressions"].append("false alarm on benign refactor %s" % fa_["patch"])
-        engine.REPO_DIR = a.repo
-
     merged = merge(obs)
     known = [k for k in load_known() if k["property"] == prop and k["status"] == "known"]
     known_keys = {(k["rule"], k["key"]["fn"], k["key"]["site"]): k for k in known}
@@ -171,6 +159,20 @@ def main():
             matched.append((r, known_keys[k]))
         else:
             violations.append(r)
+
+    mutants = None
+    if tier == "thorough" and not a.no_mutants and not violations and not a.replay:
+        # the checker's own two-way self-test (stored mutants must be caught, stored refactors must be silent) is meaningful only on a tree the
+        # property holds on: with a violation present every patched copy would report it as well
+        import mutants as mu
+        mutants = mu.run(prop, a.repo)
+        # the other half: behaviour-preserving refactors must not alarm
+        import benign as be
+        b = be.run([prop])
+        mutants["benign"] = {"clean": len(b["clean"]), "skipped": b["skipped"], "false_alarms": b["false_alarms"]}
+        for fa_ in b["false_alarms"]:
+            mutants["regressions"].append("false alarm on benign refactor %s" % fa_["patch"])
+        engine.REPO_DIR = a.repo
 
     if a.replay:
         with open(a.replay) as f:
@@ -199,12 +201,34 @@ def main():
 
     write_evidence(a, prop, tier, seed, t0, obs, fns, facts, controls, violations, matched, notes, mutants)
     if mutants is not None and mutants.get("regressions"):
-        print("ENGINE-ERROR: mutant self-test regression for %s: %s" % (prop, ", ".join(mutants["regressions"])))
-        return 1 if violations else 2
+        if _pristine(a.repo):
+            print("ENGINE-ERROR: mutant self-test regression for %s: %s" % (prop, ", ".join(mutants["regressions"])))
+            return 1 if violations else 2
+        # the stored patches are diffs against the tree they were made on; on a tree that has moved on, a patch that still applies may mean something
+        # else, so its outcome is reported (evidence file) but is no verdict about the checker
+        print("NOTE: corpus self-test not conclusive on a tree that differs from its base %s: %s" % (_corpus_base()[:7], ", ".join(mutants["regressions"])))
     n_ok = sum(1 for r in merged.values() if r["ok"])
     print("%s %s: %d obligations at %d sites, %d discharged, %d known, %d violated; configs %s; %.1fs" % (
         prop, tier, len(obs), len(merged), n_ok, len(matched), len(violations), ",".join(facts.keys()), time.time() - t0))
     return 1 if violations else 0
+
+
+def _corpus_base():
+    try:
+        return open(os.path.join(VERIF, "mutants", "BASE")).read().strip()
+    except OSError:
+        return ""
+
+
+def _pristine(repo):
+    """the tree under analysis is exactly the commit the mutant / refactor corpora were cut from"""
+    import subprocess
+    try:
+        head = subprocess.run(["git", "-C", repo, "rev-parse", "HEAD"], stdout=subprocess.PIPE, stderr=subprocess.DEVNULL, text=True).stdout.strip()
+        dirty = subprocess.run(["git", "-C", repo, "status", "--porcelain", "--", "src", "Cargo.toml", "Cargo.lock"], stdout=subprocess.PIPE, stderr=subprocess.DEVNULL, text=True).stdout.strip()
+    except OSError:
+        return False
+    return bool(head) and head == _corpus_base() and not dirty
 
 
 def write_evidence(a, prop, tier, seed, t0, obs, fns, facts, controls, violations, matched, notes, mutants, engine_error=False):
